@@ -72,6 +72,10 @@ class MinDKLOptimizer(object):
             The Kullback-Leibler divergence.
         """
         q = self._q(x)
+        if not np.all(np.isfinite(q)):
+            # all weights zero: not a point of the domain (the nan-ignoring
+            # divergence below would otherwise report -H(p) there)
+            return np.inf
         dkl = relative_entropy(self._p, q)
         return dkl
 
